@@ -10,7 +10,7 @@ static inline std::vector<Str> norm_corpus(int size, int bonus = 0) {
     auto add = [&](const Str &s) { if (ref::is_uri_reference(s) && seen.insert(s).second) v.push_back(s); };
     // (a) component product with case / percent-encoding variants
     std::vector<const char *> scheme = { 0, "s", "S", "aB+c" }, user = { 0, "u", "%41%7e", "%3a%3A", "U%2dx", "u%3a" },
-        host = { "", "h", "H", "A%3a%41", "%7E.x", "H%2f", "x%3Ay", "%3a", "1.2.3.4", "[::A]", "[vF.X]", "[VF.x%]", "1%2E2.3.4", "%31.2.3.%34", "1%2e2.3.256" }, port = { 0, "80" },
+        host = { "", "h", "H", "A%3a%41", "%7E.x", "H%2f", "x%3Ay", "%3a", "1.2.3.4", "[::A]", "[vF.X]", "[VF.x%]", "1%2E2.3.4", "%31.2.3.%34", "1%2e2.3.256", "255.255%2E255.255", "100.200.100%2e%3125" }, port = { 0, "80" },
         path = { "", "/", "/a", "/%41", "/%7e/%2F/%2f", "a", "%61/B", "/a/%2e/%2E%2E/b", "..", "./%3a", "/x%7e", "/%7ex", "/%4ax" },
         query = { 0, "", "%41%3d%3D", "q=%7E", "%41x", "x%7e" }, frag = { 0, "%41", "F%2f" };
     if (size == 0) { scheme = { 0, "S" }; user = { 0, "%41%7e" }; host = { "H", "A%3a%41", "H%2f", "[::A]", "[vF.X]" }; port = { 0 }; path = { "", "/%7e/%2F/%2f", "%61/B", "/a/%2e/%2E%2E/b" }; query = { 0, "q=%7E" }; frag = { 0, "F%2f" }; }
